@@ -33,6 +33,7 @@ fn fuzz_opts() -> GraphOpts {
         sized: true,
         wide: true,
         mega: false,
+        symlinks: false,
     }
 }
 
